@@ -4,6 +4,8 @@
 #include "counting.h"
 #include "objectives.h"
 #include <nano/function/penalty.h>
+#include <nano/function/program.h>
+#include <optional>
 #include <nano/solver/augmented.h>
 #include <nano/solver/penalty.h>
 
@@ -111,6 +113,92 @@ std::string jvec(const std::vector<int64_t>& v)
     return s + "]";
 }
 
+// evaluations of the three penalty functions of `function` = (objective sum a_i x_i^2 + b . x, constraints `cs` as stated by the driver) at
+// lattice points, for re-computation by TLC (Penalty.tla)
+void lattice_evals(vt::Rng& rng, int64_t icase, const function_t& function, const vector_t& a, const vector_t& b, const std::string& cs, bool exact)
+{
+    const auto n     = function.size();
+    const auto ncons = static_cast<int64_t>(function.constraints().size());
+    // several points / penalties / multipliers per problem
+    for (int rep = 0; rep < 4; ++rep)
+    {
+        const auto emit = [&](const vector_t& x, const double rho, const std::vector<int64_t>& mult, const function_t& lin, const function_t& quad,
+                              const function_t& al, const function_t& al0, const char* how)
+        {
+            vector_t glin(n), gquad(n), gal(n), g0(n), gc(n);
+            const auto flin = lin.vgrad(x, glin), fquad = quad.vgrad(x, gquad), fal = al.vgrad(x, gal), fal0 = al0.vgrad(x, g0);
+            const auto same = lin.vgrad(x) == flin && quad.vgrad(x) == fquad && al.vgrad(x) == fal;
+            std::vector<int64_t> cvals;
+            for (const auto& c : function.constraints())
+            {
+                cvals.push_back(int1(::nano::vgrad(c, x, gc), exact));
+            }
+            vt::J j("Pen");
+            j.i("case", icase).i("ncons", ncons).a("a", ints(a, exact)).a("b", ints(b, exact)).raw("cs", cs).a("x", ints(x, exact)).i(
+                "rho", static_cast<int64_t>(rho)).a("mult", mult).a("cvals", cvals);
+            j.i("f", int1(function.vgrad(x), exact)).i("lin", int1(flin, exact)).a("glin", ints(glin, exact)).i("quad", int1(fquad, exact)).a("gquad", ints(gquad, exact));
+            j.i("al2rho", int1(fal, exact, 2.0 * rho)).a("gal", ints(gal, exact)).i("al0", int1(fal0, exact, 2.0 * rho)).b("valueOnlySame", same).s("how", how);
+            if (!exact)
+            {
+                vt::put(vt::J("Inexact").i("case", icase));
+                exact = true;
+            }
+            else
+            {
+                vt::put(j);
+            }
+        };
+        const auto x   = ivec(rng, n, -4, 4);
+        const auto rho = static_cast<double>(1 << rng.range(0, 3));
+        vector_t   lambda(count_equalities(function)), miu(count_inequalities(function)), zl(lambda.size()), zm(miu.size());
+        zl.full(0.0);
+        zm.full(0.0);
+        std::vector<int64_t> mult;
+        const auto           draw_multipliers = [&]()
+        {
+            mult.clear();
+            tensor_size_t il = 0, im = 0;
+            for (const auto& c : function.constraints())
+            {
+                const auto m = static_cast<double>(is_equality(c) ? rng.range(-3, 3) : rng.range(0, 4));
+                (is_equality(c) ? lambda(il++) : miu(im++)) = m;
+                mult.push_back(static_cast<int64_t>(m));
+            }
+        };
+        draw_multipliers();
+        auto lin  = linear_penalty_function_t{function};
+        auto quad = quadratic_penalty_function_t{function};
+        auto al   = augmented_lagrangian_function_t{function, lambda, miu};
+        auto al0  = augmented_lagrangian_function_t{function, zl, zm};
+        lin.penalty(rho);
+        quad.penalty(rho);
+        al.penalty(rho);
+        al0.penalty(rho);
+        emit(x, rho, mult, lin, quad, al, al0, "fresh");
+        // as the solvers use them: the SAME objects evaluated again after penalty() was called once more and after the multipliers (held by
+        // reference by the augmented Lagrangian) were changed in place - or copies made by clone() at that moment; still the defining formulas
+        if (rng.coin())
+        {
+            draw_multipliers();
+            const auto rho2 = rng.coin(1, 3) ? rho : static_cast<double>(1 << rng.range(0, 3));
+            lin.penalty(rho2);
+            quad.penalty(rho2);
+            al.penalty(rho2);
+            al0.penalty(rho2);
+            const auto x2 = rng.coin() ? x : ivec(rng, n, -4, 4);
+            if (rng.coin())
+            {
+                emit(x2, rho2, mult, lin, quad, al, al0, "reused");
+            }
+            else
+            {
+                const auto clin = lin.clone(), cquad = quad.clone(), cal = al.clone(), cal0 = al0.clone();
+                emit(x2, rho2, mult, *clin, *cquad, *cal, *cal0, "clone");
+            }
+        }
+    }
+}
+
 void lattice_case(vt::Rng& rng, int64_t icase)
 {
     const auto n = rng.range(1, 4);
@@ -182,53 +270,186 @@ void lattice_case(vt::Rng& rng, int64_t icase)
         }
     }
     cs += "]";
-    const auto ncons = static_cast<int64_t>(function.constraints().size());
-    // several points / penalties / multipliers per problem
-    for (int rep = 0; rep < 4; ++rep)
+    lattice_evals(rng, icase, function, function.m_a, function.m_b, cs, exact);
+}
+
+matrix_t imat(vt::Rng& rng, int64_t rows, int64_t cols, int64_t lo, int64_t hi)
+{
+    matrix_t m(rows, cols);
+    for (tensor_size_t i = 0; i < m.size(); ++i)
     {
-        const auto x   = ivec(rng, n, -4, 4);
-        const auto rho = static_cast<double>(1 << rng.range(0, 3));
-        vector_t   lambda(count_equalities(function)), miu(count_inequalities(function)), zl(lambda.size()), zm(miu.size());
-        zl.full(0.0);
-        zm.full(0.0);
-        std::vector<int64_t> mult;
-        tensor_size_t        il = 0, im = 0;
-        for (const auto& c : function.constraints())
+        m(i) = static_cast<double>(rng.range(lo, hi));
+    }
+    return m;
+}
+
+// the linear constraints of a program as the driver states them: A x = b, G x <= h, stacked from the given blocks
+struct rows_t
+{
+    std::vector<vector_t> m_q;   // row
+    std::vector<double>   m_rhs; // right-hand side
+    void add(const matrix_t& M, const vector_t& rhs)
+    {
+        for (tensor_size_t i = 0; i < M.rows(); ++i)
         {
-            const auto m = static_cast<double>(is_equality(c) ? rng.range(-3, 3) : rng.range(0, 4));
-            (is_equality(c) ? lambda(il++) : miu(im++)) = m;
-            mult.push_back(static_cast<int64_t>(m));
+            vector_t q(M.cols());
+            for (tensor_size_t j = 0; j < M.cols(); ++j)
+            {
+                q(j) = M(i, j);
+            }
+            m_q.push_back(q);
+            m_rhs.push_back(rhs(i));
         }
-        auto lin  = linear_penalty_function_t{function};
-        auto quad = quadratic_penalty_function_t{function};
-        auto al   = augmented_lagrangian_function_t{function, lambda, miu};
-        auto al0  = augmented_lagrangian_function_t{function, zl, zm};
-        lin.penalty(rho);
-        quad.penalty(rho);
-        al.penalty(rho);
-        al0.penalty(rho);
-        vector_t glin(n), gquad(n), gal(n), g0(n), gc(n);
-        const auto flin = lin.vgrad(x, glin), fquad = quad.vgrad(x, gquad), fal = al.vgrad(x, gal), fal0 = al0.vgrad(x, g0);
-        const auto same = lin.vgrad(x) == flin && quad.vgrad(x) == fquad && al.vgrad(x) == fal;
-        std::vector<int64_t> cvals;
-        for (const auto& c : function.constraints())
+    }
+};
+
+// attach equality / inequality blocks to a linear or quadratic program through the library's own interface (either order)
+template <class tprogram>
+void constrain_program(tprogram& program, const matrix_t& A, const vector_t& b, const matrix_t& G, const vector_t& h, int64_t box, double lo, double hi, bool eq_first)
+{
+    const auto n = program.m_c.size();
+    if (A.rows() > 0 && G.rows() > 0 && box != 0)
+    {
+        program.constrain(program::make_equality(A, b), program::make_inequality(G, h), program::make_greater(n, lo), program::make_less(n, hi));
+    }
+    else if (A.rows() > 0 && G.rows() > 0)
+    {
+        eq_first ? program.constrain(program::make_equality(A, b), program::make_inequality(G, h))
+                 : program.constrain(program::make_inequality(G, h), program::make_equality(A, b));
+    }
+    else if (A.rows() > 0 && box != 0)
+    {
+        program.constrain(program::make_greater(n, lo), program::make_equality(A, b), program::make_less(n, hi));
+    }
+    else if (G.rows() > 0 && box != 0)
+    {
+        program.constrain(program::make_inequality(G, h), program::make_greater(n, lo), program::make_less(n, hi));
+    }
+    else if (A.rows() > 0)
+    {
+        program.constrain(program::make_equality(A, b));
+    }
+    else if (G.rows() > 0)
+    {
+        program.constrain(program::make_inequality(G, h));
+    }
+    else if (box != 0)
+    {
+        program.constrain(program::make_greater(n, lo), program::make_less(n, hi));
+    }
+}
+
+// a linear / quadratic program with integer data converted to a constrained function by nano::make_function: its objective must be
+// c.x (+ 0.5 x'Qx) and its constraints A x - b (= 0) and G x - h (<= 0) as computed by the driver (exact on the lattice; the order of the
+// constraints inside the function is the library's business: they are matched by (equality?, gradient, value)); when Q is diagonal the
+// penalty functions of the converted function are then re-computed by TLC like those of the hand-made functions
+void program_case(vt::Rng& rng, int64_t icase)
+{
+    const auto n = rng.range(1, 4), me = rng.range(0, 2), mi = rng.range(0, 3), box = int64_t{rng.range(0, 2) == 0 ? 1 : 0};
+    const auto qp = rng.coin(2, 3), diagonal = !qp || rng.coin();
+    const auto c  = ivec(rng, n, -3, 3);
+    vector_t   a  = vector_t::zero(n);
+    matrix_t   Q  = matrix_t::zero(n, n);
+    if (qp)
+    {
+        for (tensor_size_t i = 0; i < n; ++i)
         {
-            cvals.push_back(int1(::nano::vgrad(c, x, gc), exact));
+            for (tensor_size_t j = i; j < n; ++j)
+            {
+                if (i == j)
+                {
+                    a(i)    = static_cast<double>(rng.range(0, 3));
+                    Q(i, i) = 2.0 * a(i);
+                }
+                else if (!diagonal)
+                {
+                    Q(i, j) = Q(j, i) = 2.0 * static_cast<double>(rng.range(-1, 1));
+                }
+            }
         }
-        vt::J j("Pen");
-        j.i("case", icase).i("ncons", ncons).a("a", ints(function.m_a, exact)).a("b", ints(function.m_b, exact)).raw("cs", cs).a("x", ints(x, exact)).i(
-            "rho", static_cast<int64_t>(rho)).a("mult", mult).a("cvals", cvals);
-        j.i("f", int1(function.vgrad(x), exact)).i("lin", int1(flin, exact)).a("glin", ints(glin, exact)).i("quad", int1(fquad, exact)).a("gquad", ints(gquad, exact));
-        j.i("al2rho", int1(fal, exact, 2.0 * rho)).a("gal", ints(gal, exact)).i("al0", int1(fal0, exact, 2.0 * rho)).b("valueOnlySame", same);
-        if (!exact)
+    }
+    const auto A = imat(rng, me, n, -2, 2), G = imat(rng, mi, n, -2, 2);
+    const auto b = ivec(rng, me, -3, 3), h = ivec(rng, mi, -3, 3);
+    const auto lo = static_cast<double>(rng.range(-3, 0)), hi = static_cast<double>(rng.range(0, 3));
+    const auto eq_first = rng.coin();
+
+    // the program must outlive the function made from it
+    std::optional<program::linear_program_t>    lp;
+    std::optional<program::quadratic_program_t> qpp;
+    rfunction_t                                 function;
+    if (qp)
+    {
+        qpp.emplace(Q, c);
+        constrain_program(*qpp, A, b, G, h, box, lo, hi, eq_first);
+        function = make_function(*qpp);
+    }
+    else
+    {
+        lp.emplace(c);
+        constrain_program(*lp, A, b, G, h, box, lo, hi, eq_first);
+        function = make_function(*lp);
+    }
+    // the driver's statement of the constraints
+    rows_t eqs, ineqs;
+    eqs.add(A, b);
+    ineqs.add(G, h);
+    if (box != 0)
+    {
+        const matrix_t I = matrix_t::identity(n, n);
+        matrix_t       mI(n, n);
+        mI.matrix() = -I.matrix();
+        ineqs.add(mI, vector_t::constant(n, -lo)); // lo <= x
+        ineqs.add(I, vector_t::constant(n, hi));   // x <= hi
+    }
+    const auto dimOK = function && function->size() == n;
+    bool       objOK = dimOK, gradOK = dimOK, consOK = dimOK;
+    if (!dimOK)
+    {
+        vt::put(vt::J("Prog").i("case", icase).b("qp", qp).i("n", n).b("dimOK", false).b("objOK", false).b("gradOK", false).b("consOK", false));
+        return;
+    }
+    for (int k = 0; k < 4; ++k)
+    {
+        const auto x = ivec(rng, n, -4, 4);
+        vector_t   g(n), gref(n);
+        gref.vector() = Q.matrix() * x.vector() + c.vector();
+        const auto fref = 0.5 * x.dot(Q.matrix() * x.vector()) + c.dot(x); // integers: exact
+        const auto f    = function->vgrad(x, g);
+        objOK  = objOK && f == fref && function->vgrad(x) == fref;
+        gradOK = gradOK && vt::same_bits(g, gref);
+    }
+    // match the function's constraints with the driver's rows
+    bool                 exact = true;
+    std::string          cs    = "[";
+    std::vector<bool>    used_eq(eqs.m_q.size(), false), used_ineq(ineqs.m_q.size(), false);
+    const auto           p0 = ivec(rng, n, -4, 4);
+    consOK = consOK && count_equalities(*function) == static_cast<tensor_size_t>(eqs.m_q.size()) &&
+             count_inequalities(*function) == static_cast<tensor_size_t>(ineqs.m_q.size());
+    for (const auto& constraint : function->constraints())
+    {
+        vector_t   gc(n);
+        const auto v    = ::nano::vgrad(constraint, p0, gc);
+        const auto eq   = is_equality(constraint);
+        auto&      rows = eq ? eqs : ineqs;
+        auto&      used = eq ? used_eq : used_ineq;
+        bool       found = false;
+        for (size_t r = 0; r < rows.m_q.size() && !found; ++r)
         {
-            vt::put(vt::J("Inexact").i("case", icase));
-            exact = true;
+            if (!used[r] && v == rows.m_q[r].dot(p0) - rows.m_rhs[r] && (gc - rows.m_q[r]).lpNorm<Eigen::Infinity>() == 0.0)
+            {
+                used[r] = found = true;
+                cs += std::string(cs.size() > 1 ? "," : "") + "{\"kind\":\"" + (eq ? "linear_eq" : "linear_ineq") + "\",\"q\":" + jvec(ints(rows.m_q[r], exact)) +
+                      ",\"r\":" + std::to_string(int1(-rows.m_rhs[r], exact)) + ",\"P\":[],\"d\":1}";
+            }
         }
-        else
-        {
-            vt::put(j);
-        }
+        consOK = consOK && found;
+    }
+    cs += "]";
+    vt::put(vt::J("Prog").i("case", icase).b("qp", qp).i("n", n).i("neq", static_cast<int64_t>(eqs.m_q.size())).i("nineq", static_cast<int64_t>(ineqs.m_q.size())).b(
+        "dimOK", dimOK).b("objOK", objOK).b("gradOK", gradOK).b("consOK", consOK));
+    if (diagonal && consOK)
+    {
+        lattice_evals(rng, icase, *function, a, c, cs, exact);
     }
 }
 
@@ -238,7 +459,49 @@ void solver_case(vt::Rng& rng, int64_t icase)
     const auto                   n = rng.range(1, 6);
     vt::quad_info_t              qinfo;
     std::unique_ptr<function_t>  function;
-    if (rng.coin(2, 3))
+    // (programs converted by nano::make_function must outlive the function)
+    std::optional<program::linear_program_t>    lp;
+    std::optional<program::quadratic_program_t> qpp;
+    const auto xhat = vt::random_x0(rng, n, 2.0);
+    // kinds 0..4: hand-made constraint sets; 5: NO constraint at all (the constrained solvers must then behave like any other solver);
+    // 6, 7: a random convex linear / quadratic program (feasible at xhat, bounded) converted to a constrained function by the library
+    const auto kind = rng.coin(1, 4) ? rng.range(5, 7) : rng.range(0, 4);
+    if (kind >= 6)
+    {
+        const auto me = rng.range(0, std::max<int64_t>(0, n - 1)), mi = rng.range(me == 0 ? 1 : 0, n + 2);
+        matrix_t   A(me, n), G(mi, n);
+        vector_t   b(me), h(mi);
+        for (tensor_size_t i = 0; i < A.size(); ++i)
+        {
+            A(i) = rng.uniform(-1.0, 1.0);
+        }
+        for (tensor_size_t i = 0; i < G.size(); ++i)
+        {
+            G(i) = rng.uniform(-1.0, 1.0);
+        }
+        b.vector() = A.matrix() * xhat.vector();
+        h.vector() = G.matrix() * xhat.vector();
+        for (tensor_size_t i = 0; i < mi; ++i)
+        {
+            h(i) += rng.uniform(0.0, 1.0);
+        }
+        const auto quadratic = rng.coin(2, 3);
+        const int64_t box     = (!quadratic || rng.coin(1, 3)) ? 1 : 0; // keep linear programs bounded
+        if (quadratic)
+        {
+            const auto q = vt::make_quadratic(rng, n, qinfo);
+            qpp.emplace(q->m_A, q->m_a);
+            constrain_program(*qpp, A, b, G, h, box, -5.0, 5.0, rng.coin());
+            function = make_function(*qpp);
+        }
+        else
+        {
+            lp.emplace(ivec(rng, n, -3, 3));
+            constrain_program(*lp, A, b, G, h, box, -5.0, 5.0, rng.coin());
+            function = make_function(*lp);
+        }
+    }
+    else if (kind == 5 || rng.coin(2, 3))
     {
         function = vt::make_quadratic(rng, n, qinfo);
     }
@@ -246,8 +509,6 @@ void solver_case(vt::Rng& rng, int64_t icase)
     {
         function = std::make_unique<intquad_t>(vector_t::zero(n), ivec(rng, n, -3, 3)); // linear objective
     }
-    const auto xhat = vt::random_x0(rng, n, 2.0);
-    const auto kind = rng.range(0, 4);
     if (kind == 4)
     {
         // a convex quadratic inequality 0.5 (x - xhat)' P (x - xhat) <= r around the feasible point (+ sometimes a linear equality through it)
@@ -300,6 +561,31 @@ void solver_case(vt::Rng& rng, int64_t icase)
     {
         function->constrain(-5.0, 5.0); // keep linear programs bounded
     }
+    // sometimes an EMPTY feasible set is planted: two parallel hyperplanes, or a ball and a half-space that does not meet it (the margin is
+    // far above any epsilon drawn below): no point is feasible within epsilon, so `converged` must never be reported by the augmented Lagrangian
+    const auto planted = kind != 5 && rng.coin(1, 8);
+    if (planted)
+    {
+        auto u = vt::random_x0(rng, n, 1.0);
+        u.vector() /= std::max(1e-3, u.lpNorm<2>());
+        if (rng.coin())
+        {
+            const auto s1 = rng.uniform(0.5, 2.0), s2 = rng.uniform(0.5, 2.0), r = rng.uniform(-2.0, 2.0), gap = rng.uniform(0.05, 2.0);
+            vector_t   u1 = u, u2 = u;
+            u1.vector() *= s1;
+            u2.vector() *= s2;
+            function->constrain(constraint::linear_equality_t{u1, -s1 * r});           // u.x = r
+            function->constrain(constraint::linear_equality_t{u2, -s2 * (r + gap)});   // u.x = r + gap
+        }
+        else
+        {
+            const auto radius = rng.uniform(0.5, 2.0), gap = rng.uniform(0.1, 2.0);
+            vector_t   mu = u;
+            mu.vector() *= -1.0;
+            function->constrain(constraint::euclidean_ball_inequality_t{xhat, radius});                  // |x - xhat| <= radius
+            function->constrain(constraint::linear_inequality_t{mu, u.dot(xhat) + radius + gap});         // u.(x - xhat) >= radius + gap
+        }
+    }
 
     rsolver_t solver;
     const auto which = rng.range(0, 3);
@@ -326,9 +612,50 @@ void solver_case(vt::Rng& rng, int64_t icase)
         solver->parameter(outers_name) = rng.range(10, rng.coin(1, 2) ? 12 : 100);
     }
     const auto max_outers = solver->parameter(outers_name).value<int64_t>();
+    // the other parameters of the outer loops, anywhere in their declared domains (closed ends included): the return contract, the budget
+    // per inner solve and `converged => feasible within epsilon` do not depend on them
+    bool shaken = false;
+    if (rng.coin(1, 2))
+    {
+        shaken = true;
+        const auto log10u = [&](double lo, double hi) { return std::pow(10.0, rng.uniform(lo, hi)); };
+        if (which <= 1)
+        {
+            if (rng.coin()) solver->parameter("solver::augmented::epsilon0") = rng.coin(1, 6) ? 1e-2 : log10u(-10.0, -2.0);
+            if (rng.coin()) solver->parameter("solver::augmented::epsilonK") = rng.coin(1, 4) ? 1.0 : rng.uniform(0.05, 1.0);
+            if (rng.coin()) solver->parameter("solver::augmented::tau") = rng.coin(1, 4) ? rng.pick(std::vector<double>{1e-3, 0.999}) : rng.uniform(0.01, 0.99);
+            if (rng.coin()) solver->parameter("solver::augmented::gamma") = 1.0 + log10u(-2.0, 3.0);
+            if (rng.coin()) solver->parameter("solver::augmented::miu_max") = rng.coin() ? log10u(-3.0, 1.0) : log10u(1.0, 30.0);
+            if (rng.coin())
+            {
+                // the interval the equality multipliers are clamped to: usually around zero, tight or wide; sometimes one-sided
+                const auto l1 = rng.coin(1, 6) ? log10u(-3.0, 0.0) : -(rng.coin() ? log10u(-3.0, 1.0) : log10u(1.0, 30.0));
+                const auto l2 = std::max(l1, 0.0) + (rng.coin() ? log10u(-3.0, 1.0) : log10u(1.0, 30.0));
+                solver->parameter("solver::augmented::lambda") = std::make_tuple(l1, l2);
+            }
+        }
+        else
+        {
+            if (rng.coin()) solver->parameter("solver::penalty::epsilon0") = rng.coin(1, 6) ? 1e-2 : log10u(-10.0, -2.0);
+            if (rng.coin()) solver->parameter("solver::penalty::epsilonK") = rng.coin(1, 4) ? 1.0 : rng.uniform(0.05, 1.0);
+            if (rng.coin()) solver->parameter("solver::penalty::eta") = rng.coin(1, 6) ? 1e+3 : std::min(1e+3, 1.0 + log10u(-2.0, 3.0));
+            if (rng.coin()) solver->parameter("solver::penalty::penalty0") = rng.coin(1, 6) ? 1e+3 : log10u(-3.0, 3.0);
+        }
+    }
 
     vt::counting_function_t counting(*function);
     const auto x0 = vt::random_x0(rng, n, rng.coin() ? 1.0 : 5.0);
+    // the wrapper is not always fresh: evaluations made through it BEFORE the run do not belong to the run (the counts reported by the
+    // returned state must not include them); the wrapper's own log is read from here on
+    if (rng.coin(1, 3))
+    {
+        vector_t g(n);
+        for (int64_t k = 0, m = rng.range(1, 5); k < m; ++k)
+        {
+            rng.coin() ? counting.vgrad(x0, g) : counting.vgrad(xhat);
+        }
+        counting.reset();
+    }
     solver_state_t state;
     try
     {
@@ -387,7 +714,10 @@ void solver_case(vt::Rng& rng, int64_t icase)
                 .i("nG", nG)
                 .i("n", n)
                 .i("maxEvals", max_evals)
-                .i("maxOuters", max_outers));
+                .i("maxOuters", max_outers)
+                .i("kind", kind)
+                .b("planted", planted)
+                .b("shaken", shaken));
 }
 } // namespace
 
@@ -404,12 +734,16 @@ int main(int argc, char* argv[])
     for (int64_t i = 0; i < nl; ++i)
     {
         lattice_case(rng, i);
+        if (i % 4 == 3)
+        {
+            program_case(rng, 1000000 + i); // linear / quadratic programs converted by nano::make_function
+        }
     }
     for (int64_t i = 0; i < ns; ++i)
     {
         solver_case(rng, nl + i);
     }
     vt::put(vt::J("Solve").i("case", -1).s("solver", "end").s("status", "max_iters").i("ncons", 0).b("dimOK", true).b("valueOK", true).b("storedOK", true).b(
-        "finite", true).b("feasOK", true).i("fcalls", 0).i("gcalls", 0).i("nF", 0).i("nG", 0).i("n", 1).i("maxEvals", 10).i("maxOuters", 10));
+        "finite", true).b("feasOK", true).i("fcalls", 0).i("gcalls", 0).i("nF", 0).i("nG", 0).i("n", 1).i("maxEvals", 10).i("maxOuters", 10).i("kind", 0).b("planted", false).b("shaken", false));
     return 0;
 }
